@@ -601,7 +601,11 @@ StateScript *ProgramScript::GetCatchStateScript(const opval_t* in, const opval_t
         if (in >= catchBlock.GetTryStartCodePos() && in < catchBlock.GetTryEndCodePos())
         {
             // of the try blocks that contain the position, the innermost one starts last
-            if (!bestCatchBlock || catchBlock.GetTryStartCodePos() > bestCatchBlock->GetTryStartCodePos())
+            // (and ends first when two of them start at the same position)
+            if (!bestCatchBlock
+                || catchBlock.GetTryStartCodePos() > bestCatchBlock->GetTryStartCodePos()
+                || (catchBlock.GetTryStartCodePos() == bestCatchBlock->GetTryStartCodePos()
+                    && catchBlock.GetTryEndCodePos() < bestCatchBlock->GetTryEndCodePos()))
             {
                 bestCatchBlock = &catchBlock;
             }
